@@ -36,6 +36,12 @@ theorem cupcake_eq_spec (crc : UInt64) (bs : Bytes) : Crc64.cupcakeUpdate crc bs
   | nil => rfl
   | cons b bs ih => simp only [List.foldl_cons, byteStep_eq _ table_spec_cupcake]; exact ih _
 
+/-- the checksum that WRITES dump payloads (`digest`, used by createValueDump / the RDB writer) and the one that VERIFIES
+    them (`cupcake`, used by the RESTORE payload check and the RDB loader) are one function: what one side appends the
+    other side accepts, for every running state and every byte string. -/
+theorem crc64_copies_agree (crc : UInt64) (bs : Bytes) : Crc64.digestUpdate crc bs = Crc64.cupcakeUpdate crc bs := by
+  rw [digest_eq_spec, cupcake_eq_spec]
+
 theorem update_append (crc : UInt64) (a b : Bytes) : update crc (a ++ b) = update (update crc a) b := by
   simp [update, List.foldl_append]
 
